@@ -63,7 +63,47 @@ func ruleURN(e *Env) {
 		return
 	}
 	call := calls[0]
+	// alternative: the formatter's own URN form on an empty buffer (its layout, prefix + plain, is C05.layout's business)
+	if urnFlag, okF := tabConstInt(e, "uu", "FormatURN"); okF && flow.IsNilConst(call.Call.Args[0]) {
+		if k, ok := flow.ConstInt(call.Call.Args[2]); ok && k == urnFlag {
+			e.S.Ok(rule, site, "prefix-literal", "URN formats with FormatURN onto an empty buffer: the prefix comes from the formatter's URN layout", e.Pos(fn))
+			e.S.Ok(rule, site, "flag", "format flag FormatURN on an empty buffer", e.Pos(fn))
+			urnResult(e, rule, site, fn, call)
+			return
+		}
+	}
 	lit, ok := flow.ConstString(flow.Strip(call.Call.Args[0]))
+	if !ok {
+		// a buffer made with the prefix's length (any capacity) and filled by copy(b, <constant>) just before the call
+		var mk ssa.Value
+		n, okN := int64(0), false
+		switch x := flow.Strip(call.Call.Args[0]).(type) {
+		case *ssa.MakeSlice:
+			mk = x
+			n, okN = flow.ConstInt(x.Len)
+		case *ssa.Slice: // make with constant capacity: a slice [:n] of a fresh local array
+			if al, isAl := x.X.(*ssa.Alloc); isAl && x.Low == nil && x.High != nil && al.Comment == "makeslice" {
+				mk = x
+				n, okN = flow.ConstInt(x.High)
+			}
+		}
+		if mk != nil {
+			if okN {
+				for _, in := range call.Block().Instrs {
+					if in == ssa.Instruction(call) {
+						break
+					}
+					if cp, isCall := in.(*ssa.Call); isCall {
+						if bi, isB := cp.Call.Value.(*ssa.Builtin); isB && bi.Name() == "copy" && cp.Call.Args[0] == mk {
+							if src, okS := flow.ConstString(flow.Strip(cp.Call.Args[1])); okS && int64(len(src)) == n {
+								lit, ok = src, true
+							}
+						}
+					}
+				}
+			}
+		}
+	}
 	switch {
 	case !ok:
 		e.S.Unk(rule, site, "prefix-literal", "buffer passed to DefaultFormatter is not a converted string constant", e.Pos(fn))
@@ -77,6 +117,11 @@ func ruleURN(e *Env) {
 	} else {
 		e.S.Ok(rule, site, "flag", "format flag 0 (plain rendering after the prefix)", e.Pos(fn))
 	}
+	urnResult(e, rule, site, fn, call)
+}
+
+// urnResult: URN returns the formatter's buffer converted to string.
+func urnResult(e *Env, rule, site string, fn *ssa.Function, call *ssa.Call) {
 	// result: string(b) of result #0
 	okRet := false
 	for _, r := range flow.Returns(fn) {
